@@ -614,7 +614,8 @@ def dir_mode_links(chk, stats):
         for tpl in ("n%Count()_%Name()", "%Upper{%Name()}x"):
             with Sandbox("verif-c08-l") as root:
                 cli_driver.build_tree(root, spec)
-                res = cli_driver.run_cli(["-d", "-r", "--", tpl, os.path.join(root, "in")], root, root=root, snapshots=False)
+                extra = ["-si"] if tpl.startswith("n") else []          # --sort-invert does not turn the depth order round
+                res = cli_driver.run_cli(["-d", "-r"] + extra + ["--", tpl, os.path.join(root, "in")], root, root=root, snapshots=False)
                 left = []
                 for dp, dn, fn in os.walk(os.path.join(root, "in")):
                     for x in dn + [f for f in fn if os.path.islink(os.path.join(dp, f))]:
